@@ -215,6 +215,7 @@ From Draco Require Import Proofs.EbTrace_proofs Proofs.EbSimEnc_proofs Proofs.Eb
 From Draco Require Import Proofs.EbSimEv_proofs Proofs.EbSimEvChk_proofs Proofs.EbSimCount_proofs.
 From Draco Require Import Proofs.EbTraceStep_proofs Proofs.EbTraceInv_proofs Proofs.EbSimEvEnc_proofs.
 From Draco Require Import Proofs.EbTraceStepM_proofs Proofs.EbTraceInvM_proofs Proofs.EbTraceLedger_proofs Proofs.EbSimEvEncM_proofs.
+From Draco Require Import Model.RansSymbol Model.EbTraversal Proofs.EbTraversal_proofs Proofs.EbStream_proofs.
 From Draco Require Model.Edgebreaker Proofs.Edgebreaker_proofs Proofs.Edgebreaker_fan_proofs Proofs.Edgebreaker_compact_proofs
   Proofs.EbSimCompact_proofs.
 Import ListNotations.
@@ -1206,3 +1207,51 @@ Example ebsim_general_torus_and_disc_with_hole :
   general_info (grid 3 3 true ++ shift_faces 100 (firstn 8 (grid 3 3 false) ++ skipn 10 (grid 3 3 false))) = Some (3, 2, true, true).
 Proof. vm_compute. reflexivity. Qed.
 
+
+(** ** The connectivity round trip at the level of BYTES (standard traversal): EBENC o TRAV o EB composed.
+    For every triangle list: if the model of MeshEdgebreakerEncoderImpl::EncodeConnectivity succeeds, its symbols / start-face
+    bits (and any attribute seam bits) are written by the traversal encoder and framed by EncodeConnectivity's header and
+    split-event block into [bs], then - whatever follows [bs] - DecodeConnectivity's framing accepts exactly the header and
+    the events written and leaves [rest]; draining the traversal decoder yields the reversed symbols, the bits and the seams;
+    and the connectivity state machine run on what was drained accepts and rebuilds a corner table isomorphic to the
+    encoder's.  Premises besides encoder success: the 2^31 size bound, guard G3 (as in [C01_ebsim_roundtrip_ct]) and the
+    bit-sequence length bounds of TRAV (fewer than 2^32 - 3 bits per sequence). *)
+Theorem C01_eb_connectivity_stream_roundtrip : forall faces t o rm seams trav bs rest,
+  ct_create faces = Some t -> eb_encode_ct t = EOk o ->
+  (Z.of_nat (3 * length faces + length (ct_vcorn t)) < 2147483648)%Z ->
+  ((3 * o_nfaces o) / 2 <= (o_nverts o * (o_nverts o - 1)) / 2)%Z ->
+  bits_len_ok (o_bits o) -> Forall bits_len_ok seams ->
+  enc_trav_std (o_nfaces o) (o_syms o) (o_bits o) seams = Some trav ->
+  enc_conn (hdr_of o (zlen seams)) (o_events o) trav = Some bs ->
+  exists d syms' bits' seams',
+    dec_conn (bs ++ rest) = VOk (hdr_of o (zlen seams), o_events o, TStd d, rest) /\
+    drain_std (length (o_syms o)) (length (o_bits o)) (map (@length bool) seams) d = (syms', bits', seams') /\
+    seams' = seams /\
+    exists n s,
+      Edgebreaker.eb_full (o_nverts o) (o_nfaces o) (o_nsplit o) rm syms' (o_events o) (Edgebreaker.bits_of_list bits')
+        = Edgebreaker.Ok (n, s) /\
+      eb_iso (ct_c2v t) (ct_opp t) (o_pcc o) (Edgebreaker.c2v s) (Edgebreaker.copp s).
+Proof. exact eb_connectivity_stream_roundtrip. Qed.
+Print Assumptions C01_eb_connectivity_stream_roundtrip.
+
+Definition stream_info faces (seams : list (list bool)) :=
+  match ct_create faces with
+  | Some t => match eb_encode_ct t with
+    | EOk o =>
+      match enc_trav_std (o_nfaces o) (o_syms o) (o_bits o) seams with
+      | Some trav => match enc_conn (hdr_of o (zlen seams)) (o_events o) trav with
+        | Some bs => Some (length (o_events o), length (o_bits o),
+                           (Z.of_nat (3 * length faces + length (ct_vcorn t)) <? 2147483648)%Z &&
+                           ((3 * o_nfaces o) / 2 <=? (o_nverts o * (o_nverts o - 1)) / 2)%Z &&
+                           (zlen (o_bits o) + 3 <? 2 ^ 32)%Z && forallb (fun b => (zlen b + 3 <? 2 ^ 32)%Z) seams,
+                           match dec_conn (bs ++ [7; 7; 7]%Z) with VOk (_, evs, TStd _, r) => (length evs, r) | _ => (0, []) end)
+        | None => None end
+      | None => None end
+    | _ => None end
+  | None => None
+  end.
+(** two tori (4 events, 2 start faces) with one attribute seam sequence: every premise holds, and - executed - the framing
+    decoder returns the 4 events and leaves the 3 trailing bytes *)
+Example ebstream_two_tori :
+  stream_info (grid 3 3 true ++ shift_faces 100 (grid 4 5 true)) [[true; false; true; true]] = Some (4, 2, true, (4, [7; 7; 7]%Z)).
+Proof. vm_compute. reflexivity. Qed.
